@@ -139,8 +139,12 @@ class C06(Prop):
                                 if t == k0:
                                     lo = hi = go_round(steps[k0])
                                 else:
-                                    lo = go_round(min(steps[k0], steps[k1])) - 1
-                                    hi = go_round(max(steps[k0], steps[k1])) + 1
+                                    # the documented function: the straight line through the two neighbouring steps
+                                    # (exact rationals; +-1 for the binary64 / binary32 roundings on the way)
+                                    y0, y1 = Fraction(steps[k0]), Fraction(steps[k1])
+                                    exact = y0 + (Fraction(avg) / 1000 - k0) / (k1 - k0) * (y1 - y0)
+                                    lo = max(go_round(min(steps[k0], steps[k1])), go_round(exact) - 1)
+                                    hi = min(go_round(max(steps[k0], steps[k1])), go_round(exact) + 1)
                             if not (lo <= v <= hi):
                                 out.append(viol(f"steps curve {a['id']} = {v} at {t} degrees, expected within [{lo},{hi}]", cops, cgo, upto=i))
                                 break
